@@ -132,6 +132,8 @@ def build_key(k):
                           explicit_name=True)
     if op == "BVS":
         r = claripy.BVS(name, ints[0], explicit_name=True)
+    elif op == "BVV" and not ints and ln:
+        r = claripy.ESI(ln)                      # BVV(None, ln): the value slot holds None
     elif op == "BVV":
         r = claripy.BVV(TM.unbits(ints), len(ints))
     elif op == "BoolS":
